@@ -566,3 +566,77 @@ Lemma witnesses_fixed :
 Proof.
   split; [|split]; eexists; (split; [vm_compute; reflexivity|]); try split; vm_compute; reflexivity.
 Qed.
+
+(* ---------------------------------------------------------------- a crash during recovery is harmless *)
+Lemma rec_comp_osub : forall o o', fst (rec_comp o) = None -> osub o' o -> rec_comp o' = (None, None).
+Proof.
+  intros o o' H [->|[d [d' [-> [-> [S1 _]]]]]]; [reflexivity|]. cbn in *.
+  destruct (d_data d) eqn:E; [discriminate|]. destruct S1 as [S1|S1]; rewrite S1, ?E; reflexivity.
+Qed.
+Lemma rec_inc_osub : forall o o', fst (rec_inc true o) = None -> osub o' o -> rec_inc true o' = (None, None).
+Proof.
+  intros o o' H [->|[d [d' [-> [-> [S1 [S2 _]]]]]]]; [reflexivity|]. cbn in *.
+  destruct S1 as [S1|S1]; rewrite S1; [|destruct (d_data d); reflexivity].
+  destruct (d_data d); [|reflexivity].
+  destruct S2 as [S2|S2]; rewrite S2; [|reflexivity].
+  destruct (d_sizef d) as [sb|]; [|reflexivity]. destruct (undec sb); [discriminate|reflexivity].
+Qed.
+Lemma rec_comp_some : forall o, fst (rec_comp o) = None -> rec_comp o = (None, None).
+Proof. intros [d|] H; cbn in *; [|reflexivity]. destruct (d_data d); [discriminate|reflexivity]. Qed.
+Lemma rec_inc_some : forall o, fst (rec_inc true o) = None -> rec_inc true o = (None, None).
+Proof.
+  intros [d|] H; cbn in *; [|reflexivity]. destruct (d_data d); [|reflexivity]. destruct (d_sizef d) as [sb|]; [|reflexivity].
+  destruct (undec sb); [discriminate|reflexivity].
+Qed.
+
+Lemma interrupted_view : forall c f f' x, interrupted_recovery c f f' ->
+  rec_view (c_ri c) (blobs f' x) = rec_view (c_ri c) (blobs f x).
+Proof.
+  intros c f f' x [_ H]. destruct (H x) as [Hc Hi]. unfold rec_view.
+  assert (Ec : rec_comp (fst (blobs f' x)) = rec_comp (fst (blobs f x))).
+  { destruct (fst (rec_comp (fst (blobs f x)))) eqn:E; cbn [isSome] in Hc; [now rewrite Hc|].
+    rewrite (rec_comp_osub _ _ E Hc). symmetry. now apply rec_comp_some. }
+  assert (Ei : rec_inc (c_ri c) (snd (blobs f' x)) = rec_inc (c_ri c) (snd (blobs f x))).
+  { destruct (c_ri c); [|reflexivity]. cbn [andb] in Hi.
+    destruct (fst (rec_inc true (snd (blobs f x)))) eqn:E; cbn [isSome] in Hi; [now rewrite Hi|].
+    rewrite (rec_inc_osub _ _ E Hi). symmetry. now apply rec_inc_some. }
+  now rewrite Ec, Ei.
+Qed.
+
+Theorem recovery_crash_harmless : forall c f f' s1, interrupted_recovery c f f' -> recover c f = Some s1 ->
+  exists s2, recover c f' = Some s2 /\ msize s2 = msize s1 /\
+    forall x, mem s2 x = mem s1 x /\ blobs (disk s2) x = blobs (disk s1) x.
+Proof.
+  intros c f f' s1 I R. pose proof I as [Hd _]. unfold recover in *. rewrite Hd.
+  assert (E : sum_sizes (fun y => fst (rec_view (c_ri c) (blobs f' y))) (dom f)
+            = sum_sizes (fun y => fst (rec_view (c_ri c) (blobs f y))) (dom f)).
+  { apply sum_ext. intros y _. now rewrite (interrupted_view c f f' y I). }
+  rewrite E. destruct (_ <=? c_cap c); [|discriminate]. injection R as <-.
+  eexists. split; [reflexivity|]. split; [reflexivity|].
+  intros x. split.
+  - change (fst (rec_view (c_ri c) (blobs f' x)) = fst (rec_view (c_ri c) (blobs f x))).
+    now rewrite (interrupted_view c f f' x I).
+  - change (snd (rec_view (c_ri c) (blobs f' x)) = snd (rec_view (c_ri c) (blobs f x))).
+    now rewrite (interrupted_view c f f' x I).
+Qed.
+
+(* non-vacuity: the disk after a crash between create and write of `_size` (recovery drops the entry
+   and removes its directory); recovery interrupted after unlinking `data`, before `_size` *)
+Definition ex_f : fs := crash (cfg_w true) init (Create 0 5) 4.
+Definition ex_f' : fs :=
+  mkfs (fun y => if y =? 0 then (None, Some (mkbdir None (Some []) false [] [])) else (None, None)) (dom ex_f) (sdirs ex_f).
+Lemma recovery_crash_nonvacuous :
+  interrupted_recovery (cfg_w true) ex_f ex_f' /\ blobs ex_f 0 <> blobs ex_f' 0 /\
+  exists s1, recover (cfg_w true) ex_f = Some s1 /\ mem s1 0 = None.
+Proof.
+  split; [|split].
+  - split; [reflexivity|]. intros x. destruct (N.eqb_spec x 0) as [->|E].
+    + vm_compute. split; [now left|]. right. eexists. eexists. split; [reflexivity|]. split; [reflexivity|].
+      repeat split; auto. intros s v H. discriminate.
+    + assert (B : blobs ex_f x = (None, None)).
+      { unfold ex_f, crash. rewrite (blobs_exec_other 0); [reflexivity| |exact E].
+        eapply ckeys_prefix; [apply prefix_firstn|]. apply (step_ckeys (cfg_w true) init (Create 0 5)). }
+      rewrite B. unfold ex_f'. cbn [blobs]. destruct (N.eqb_spec x 0); [contradiction|]. cbn. split; now left.
+  - vm_compute. discriminate.
+  - eexists. split; vm_compute; reflexivity.
+Qed.
